@@ -38,6 +38,8 @@ BASE = [
     ("gap", {(0, 3): 1, (3,): -1}),
     ("cubic", {(0, 1, 2): 1, (0,): -1}),
     # terms inserted in non-lexicographic order (the neighbour lists handed to the kernel follow insertion order)
+    # documented stale state: a term is cancelled without refresh(), the model still reports its variable
+    ("stale", {(0,): 1, (): 3}),
     ("shuffled", {(1, 2): 2, (0, 1): -1, (2, 3): 0.5, (0, 3): 3, (1, 3): -2, (2,): 1, (0,): -0.5}),
 ]
 SCHEDULES = [
@@ -62,6 +64,8 @@ def configs(tier):
             for cont in conts:
                 if cont in gen.DEG2 and deg > 2:
                     continue
+                if bname == "stale" and cont == "dict":
+                    continue
                 schemes = ("int",) if cont in gen.MATRIX else ("str", "gap")
                 for sch in schemes:
                     fns = (["anneal_quso"] if deg <= 2 else []) + ["anneal_puso"] if kind == "spin" else (["anneal_qubo"] if deg <= 2 else []) + ["anneal_pubo"]
@@ -80,6 +84,12 @@ def setup(case):
     D = gen.relabel(D0, case["scheme"], max(n, 1))
     M = dict(D) if case["container"] == "dict" else gen.build(case["container"], D)
     spin = case["kind"] == "spin"
+    reported = None
+    if case["base"] == "stale":
+        for k in [k for k in D if k]:
+            M[k] -= D[k]
+            del D[k]
+        reported = sorted(M.variables, key=repr)
     native = case["container"] in NATIVE[case["fn"]]
     if native:
         top = max((l for k in D for l in k), default=-1)
@@ -100,6 +110,18 @@ def setup(case):
     elif init != "none":
         kw["initial_state"] = {}
     kw["in_order"] = case["in_order"]
+    if reported is not None:
+        # stale model: a result may be keyed by the reported variables or only by the true ones (none); `variables` lists the
+        # reported ones and check_result accepts any key set between the two
+        if native:
+            variables = list(range(max(reported) + 1)) if reported else []
+        else:
+            variables = reported
+        table = rp.tt(D, variables, spin)
+        if init != "none":
+            nv = len(variables)
+            a = {"first": 0, "last": (1 << nv) - 1, "alt": int("01" * nv, 2) & ((1 << nv) - 1)}[init] if nv else 0
+            kw["initial_state"] = rp.assignment(a, variables, spin)
     return getattr(sim, case["fn"]), M, D, variables, table, spin, kw, native
 
 
@@ -124,7 +146,7 @@ def check_result(case, st, res, num_anneals, variables, table, spin, D, how):
     best = None
     for r in res:
         s = r.state
-        if set(s) != set(variables):
+        if set(s) != set(variables) and not (case["base"] == "stale" and set(s) <= set(variables)):
             v("keyset", "state keys %r, model variables %r" % (sorted(s, key=repr), variables))
             return
         if any(x not in vals for x in s.values()):
